@@ -37,7 +37,7 @@ base value of the parallel axis):
   mdachain_parallelize_tasks (MDAChain).
 
 Bound.  thorough: <= 2 deviations on every n = 2 graph and on one representative per isomorphism class of the n = 3
-graphs (plain solvers: the 27 strongly connected classes; chains: the classes where a chain is more than its inner
+graphs (plain solvers: the 30 strongly connected classes; chains: the classes where a chain is more than its inner
 MDA, i.e. not one group covering everything and not acyclic; the other representatives <= 1), and every listing
 permutation of the default vector on every labelled n = 3 graph (the order axis supplies the relabellings of the
 representatives).  quick: <= 1 deviation on n = 2, the default vector on every labelled n = 3 graph, every listing
@@ -823,9 +823,8 @@ def run(ctx):
         "(the update rule, not the first sweep, produced the returned point)",
         "exhaustive": True,
         "bounds": {"deviations": 2 if ctx.thorough else 1, "max_disciplines": 3, "sizes": [1, 2], "tolerance": TOL, "max_mda_iter": MAX_ITER,
-                   "alphabet": ALPHA["name"]},
-        "caps": {"process_based_execution": "single deviation only (every MDA iteration forks a process pool)",
-                 "two_deviations_n3": "one representative per isomorphism class; the listing-order axis supplies the relabellings"},
+                   "alphabet": ALPHA["name"], "process_based_execution": "as a single deviation only (every MDA iteration forks a process pool)",
+                   "two_deviations_on_n3": "one representative per isomorphism class; the listing-order axis supplies the relabellings"},
         "assumptions": [
             "value alphabet: one coefficient table / start value / 3 input points per VERIF_SEED (4 alphabets); structural axes exhaustive within the bound",
             "one variable per edge, private self-loop variables, one shared input x, one non-coupling output per discipline",
